@@ -50,6 +50,7 @@ def _jd(o):
 
 
 def outcome(family, call, orders=None, ordered=True, reg_order=None):
+    resfam.fresh_types()
     base = common.std_context()
     ctx, defs = resfam.build_chain(family, base, orders, ordered, reg_order)
     text, binds = resfam.render_call(call)
@@ -69,6 +70,7 @@ def outcome_multi(family, call, split, perm):
     layer 0, perm: order of the members); the merged layer is the same set
     of overloads whatever the split and the order"""
     from yaql.language import contexts
+    resfam.fresh_types()
     base = common.std_context()
     deeper = [dict(d, layer=d['layer'] - 1) for d in family['defs']
               if d['layer'] >= 1]
@@ -102,6 +104,7 @@ def outcome_incremental(family, call, reg_order):
     is resolved through the session after each registration; the last
     outcome must be the one of the completed family"""
     from yaql.language import contexts
+    resfam.fresh_types()
     base = common.std_context()
     n = family.get('layers', 1)
     by_layer = {}
@@ -247,9 +250,10 @@ def biased_family(draw):
     shape = draw(st.sampled_from(['widen', 'widen', 'widen', 'incomparable',
                                   'identical', 'chain', 'mixed-nokw',
                                   'mixed-lazy', 'zero-arg-tie',
-                                  'partial-order']))
+                                  'partial-order', 'value-validated']))
     layers = draw(st.integers(1, 2))
     defs = []
+    argvals = [{'o': a} for a in args]
 
     def mk(types, layer=0, **extra):
         d = {'tag': 't%d' % len(defs), 'layer': layer, 'kind': 'function',
@@ -277,6 +281,14 @@ def biased_family(draw):
             elif kind == 'varargs':
                 d['varargs'] = 'obj'
             defs.append(d)
+    elif shape == 'value-validated':
+        # parameter types that tell values of one class apart (a host type
+        # with a validator, one type object for all its uses)
+        k = draw(st.integers(2, 3))
+        argvals = [draw(st.sampled_from([0, 7, -3, 5])) for _ in range(k)]
+        for _ in range(draw(st.integers(2, 4))):
+            mk([draw(st.sampled_from(['Pos', 'Pos', 'int', 'Integer',
+                                      'Number', 'obj'])) for _ in range(k)])
     elif shape == 'partial-order' and k >= 2:
         # >=3 matches containing a comparable pair but no most specific one
         for _ in range(draw(st.integers(3, 4))):
@@ -328,12 +340,12 @@ def biased_family(draw):
     # shuffle tags so that the most specific one is not always first
     order = draw(st.permutations(range(len(defs))))
     defs = [defs[i] for i in order]
-    call = {'args': [{'o': a} for a in args]}
+    call = {'args': list(argvals)}
     if shape not in ('mixed-nokw', 'zero-arg-tie') and k >= 1 and \
             draw(st.integers(0, 2)) == 0:
         # pass a suffix of the arguments by keyword
         cut = draw(st.integers(0, k - 1))
-        call['kwargs'] = [['p%d' % i, {'o': args[i]}]
+        call['kwargs'] = [['p%d' % i, argvals[i]]
                           for i in range(cut, k)]
         call['args'] = call['args'][:cut]
         if cut == 0 and k >= 2 and draw(st.booleans()):
